@@ -884,6 +884,24 @@ def o_dict_purity(ctx, case):
     return None
 
 
+def o_updated_flag(ctx, case):
+    """the return value of set_params: True exactly when the observable state changed (applied twice)"""
+    spec, p_items = case['spec'], [tuple(x) for x in case['p']]
+    obj, err = _try(lambda: build(spec), 'constructing %r' % spec)
+    if err:
+        return err
+    for rep in (1, 2):
+        before = _deep_snapshot(obj)
+        flag, err = _try(lambda: obj.set_params(dict(p_items)), 'set_params(%r) on %r' % (dict(p_items), spec))
+        if err:
+            return err
+        changed = _deep_snapshot(obj) != before
+        if bool(flag) != changed:
+            return ('set_params(%r) on %r (application %d) returned updated=%r but the state %s (%r -> %r)'
+                    % (dict(p_items), spec, rep, flag, 'changed' if changed else 'did not change', before, _deep_snapshot(obj)))
+    return None
+
+
 def o_total(ctx, case):
     """get_total_integral() = get_integral(t_start, t_stop) on every time profile (incl. unity)"""
     spec = case['spec']
@@ -1719,7 +1737,7 @@ ORACLES = {'integral_quad': o_integral_quad, 'additive': o_additive, 'units': o_
            'update': o_update, 'copy': o_copy, 'cdf': o_cdf, 'names': o_names, 'internal_unit': o_internal_unit,
            'corr': o_corr, 'purity': o_purity, 'purity_model': o_purity_model, 'model_call': o_model_call,
            'move_unit': o_move_unit, 'copy_api': o_copy_api, 'total': o_total, 'neg_width': o_neg_width, 'rv': o_rv,
-           'getparam_none': o_getparam_none, 'dict_purity': o_dict_purity}
+           'getparam_none': o_getparam_none, 'dict_purity': o_dict_purity, 'updated_flag': o_updated_flag}
 
 
 # ------------------------------------------------------------------------------------------
@@ -2067,6 +2085,7 @@ def run(ctx):
                 time_cases.append({'type': 'time', 'op': 'int', 'spec': spec, 'x1': cvt(pts[i]), 'x2': cvt(pts[j]), 'arg_unit': au})
                 time_cases.append({'type': 'time', 'op': 'call', 'spec': spec, 'x': cvt(pts[i]), 'arg_unit': au})
                 time_cases.append({'type': 'time', 'op': 'cdf', 'spec': spec, 'x': cvt(pts[j]), 'arg_unit': au})
+                time_cases.append({'type': 'time', 'op': 'cdf', 'spec': spec, 'x': cvt(pts[0] if i % 2 else pts[-1]), 'arg_unit': au})
             oracle_cases.append(('integral_quad', {'spec': spec, 'x1': cvt(pts[i]), 'x2': cvt(pts[j]), 'arg_unit': au}))
             ctx.count('interval:' + _interval_class(spec, pts[i], pts[j]))
         i, j, k = sorted(rng.sample(range(len(pts)), 3))
@@ -2121,6 +2140,7 @@ def run(ctx):
         pool = [(n, es['p'][n]) for n in CTOR_PARAMS.get(es['kind'], [])] + [(n, mspec['t']['p'][n]) for n in ('t0', 'tw', 'sigma_t') if n in mspec['t']['p']] + [('Phi0', 1.0)]
         pick = rng.sample(pool, min(len(pool), 2))
         oracle_cases.append(('copy_api', {'spec': mspec, 'pd': [[n, float(new_value(rng, n, v))] for n, v in pick]}))
+        oracle_cases.append(('updated_flag', {'spec': mspec, 'p': [[n, float(new_value(rng, n, v))] for n, v in pick]}))
         oracle_cases.append(('dict_purity', {'spec': mspec, 'p': [[n, float(new_value(rng, n, v))] for n, v in pick],
                                              'q': [[n, float(new_value(rng, n, v))] for n, v in pool]}))
         ctx.count('dict-reuse:model')
@@ -2140,6 +2160,8 @@ def run(ctx):
             pp = [[n, float(new_value(rng, n, sp.get('p', {}).get(n, 1.0)))] for n in rng.sample(names_, rng.randrange(1, len(names_) + 1))]
             qq = [[n, float(new_value(rng, n, sp.get('p', {}).get(n, 1.0)))] for n in names_]
             oracle_cases.append(('dict_purity', {'spec': sp, 'p': pp + ([['bogus', 1.0]] if rng.random() < 0.2 else []), 'q': qq}))
+            oracle_cases.append(('updated_flag', {'spec': sp, 'p': pp + ([['bogus', 1.0]] if rng.random() < 0.3 else [])}))
+            oracle_cases.append(('updated_flag', {'spec': sp, 'p': [[n, sp['p'][n]] for n in names_ if n in sp.get('p', {})][:1] + [['bogus', 2.0]]}))
             ctx.count('dict-reuse:' + sp['kind'])
     oracle_cases.append(('getparam_none', {'spec': {'kind': 'pffm-noposition'}, 'Phi0': 2.5e-18}))
     # recorded behaviour outside the assumptions (open findings): negative box width, stale random variable
@@ -2371,6 +2393,8 @@ def _oracle_cases_for(c):
         oo = history_to_oracle_ops(c)
         yield 'names', {'spec': spec}
         dcont = [op[2] for op in c['ops'] if op[0] in ('set', 'copyset')]
+        for pc in dcont:
+            yield 'updated_flag', {'spec': spec, 'p': pc}
         for k_, pc in enumerate(dcont):
             yield 'dict_purity', {'spec': spec, 'p': pc, 'q': dcont[(k_ + 1) % len(dcont)] if len(dcont) > 1 else []}
         yield 'update', {'spec': spec, 'ops': oo}
